@@ -208,7 +208,7 @@ def make_isinstance(world_ref):
                 return isinstance(v, (Net,)) or (isinstance(v, Inst) and v.cls.is_subclass_of(cls)) or \
                     (isinstance(v, OpaqueObj) and 'eqx.Module' in v._classes)
             if cls.name in ('jax.Array', 'jnp.ndarray'):
-                return isinstance(v, (AT, Sym))
+                return isinstance(v, (AT, Sym, Poly))
             if cls.pytypes:
                 return isinstance(v, cls.pytypes)
             return False
@@ -965,7 +965,8 @@ def make_world_externals(world_ref):
                 Literal=Subscriptable(), ClassVar=Subscriptable(), NamedTuple=Subscriptable(), Any=Subscriptable(),
                 Optional=Subscriptable(), List=Subscriptable(), Tuple=Subscriptable())
     jaxtyping = NS("jaxtyping", **{k: Subscriptable(k) for k in
-                                   ("Float", "Array", "Int", "Bool", "Key", "PyTree", "Num", "Shaped")})
+                                   ("Float", "Int", "Bool", "Key", "PyTree", "Num", "Shaped")})
+    jaxtyping.Array = jax.Array
     externals = {
         'jax': jax, 'jax.numpy': jnp, 'equinox': eqx, 'optax': optax, 'typing': typing, 'jaxtyping': jaxtyping,
         'functools': NS("functools", partial=functools.partial, reduce=functools.reduce),
